@@ -10,20 +10,24 @@ import numpy as np
 
 from . import yee_api as Y
 
-RULE = ("cases from the seed: symmetry axis 0..2, half size m in 1..3 (thorough 1..4; full domain 2m cells), 1..4 cells on the "
-        "other axes (singletons included), far faces of the symmetry axis both none | pec | pmc | pml(1 cell, oracle only) | "
-        "periodic (K only: reduced axis keeps wrap padding with a zeroed min-side halo), transverse face pairs out of "
-        "none/periodic/pec/pmc mixes, uniform or mirror-symmetric non-uniform grid, isotropic or diagonal inv_eps, scalar / "
-        "iso / diagonal inv_mu, optional sigma_E / sigma_H, all varying transversally and constant along the axis; random "
-        "reduced fields with the PEC-mirror parity (tangential E and normal H zero on the plane), full-domain initial state "
-        "= fdtdx.unfold_fields of them; m+2 steps (pmc: m+4). Oracle per step n and full cell index c along the axis: "
-        "|unfold(reduced) - full| <= 1e-12 wherever c >= n + d, d = 0 (none, pmc), 1 (pec, pml) [the asymmetry of the "
-        "far face of the discarded half sits at cell 0 resp. 1 and moves one cell per step; measured on the unchanged tree: "
-        "first difference exactly at c = n + d - 1]; detector rows (FieldDetector, exact_interpolation, whole volume, "
-        "unfold_detector_states) wherever c >= n + d + 1 (x, y: the co-location stencil reads one cell back) resp. c >= n + d (z: it reads forward). K: forward on the "
-        "full container vs model fwd; forward on the reduced container vs model redfwd (1 step and all steps), 1e-9; the "
-        "boundary objects of the reduced container (wall type/axis/side/slice, dropped min-side object) exactly; odd cell "
-        "counts are rejected by both. non-trivial = (axis, m, far, faces, tiers, seed).")
+RULE = ("cases from the seed: ONE electric plane: symmetry axis 0..2, half size m in 1..3 (thorough 1..4; full domain 2m cells), "
+        "1..4 cells on the other axes (singletons included), far faces of the symmetry axis both none | pec | pmc | pml(1 cell, "
+        "oracle only) | periodic (K only: reduced axis keeps wrap padding with a zeroed min-side halo), transverse face pairs out "
+        "of none/periodic/pec/pmc mixes, uniform or mirror-symmetric non-uniform grid, isotropic or diagonal inv_eps, scalar / "
+        "iso / diagonal inv_mu, optional sigma_E / sigma_H, all constant along the symmetric axes; SEVERAL planes (every run, every "
+        "seed): symmetry (-1,-1,0), (-1,0,-1), (0,-1,-1) and (-1,-1,-1), half sizes 2..3, far none/pmc (thorough also pec), always "
+        "with a FieldDetector(exact_interpolation) touching all planes - the whole volume or a 4-cell box centred on the planes, "
+        "so the line where two planes meet and the corner cell are recorded. Random reduced fields with the PEC-mirror parity on "
+        "every plane (tangential E and normal H zero on it), full-domain initial state = fdtdx.unfold_fields of them; m+2 steps "
+        "(pmc: m+4; several planes: min m + 1). Oracle per step n, with c_a the full cell index along each symmetric axis a: "
+        "|unfold(reduced) - full| <= 1e-12 wherever c_a >= n + d for all a, d = 0 (none, pmc), 1 (pec, pml) [the asymmetry of "
+        "the far face of a discarded half sits at cell 0 resp. 1 and moves one cell per step; measured on the unchanged tree: "
+        "first difference exactly at c = n + d - 1]; detector rows (unfold_detector_states vs the full-domain detector) wherever "
+        "c_a >= n + d + 1 (a = x, y: the co-location stencil reads one cell back) resp. c_a >= n + d (z: it reads forward), minus "
+        "the filler cell of an unfolded box. K: forward on the full container vs model fwd; forward on the reduced container vs "
+        "model redfwd (single-axis reduction once per plane; 1 step and all steps), 1e-9; the boundary objects of the reduced "
+        "container (one wall per plane: type/axis/side/slice, dropped min-side objects) exactly; odd cell counts are rejected "
+        "by both. non-trivial = (axes, ms, far, faces, tiers, seed).")
 
 PAIRS_OK = [("none", "none"), ("periodic", "periodic"), ("pec", "pec"), ("pmc", "pmc"), ("pec", "none"), ("none", "pmc"),
             ("pec", "pmc"), ("pmc", "pec")]
@@ -45,10 +49,17 @@ def unfold(arr, sym, kind):
                             f"{type(e).__name__}: {str(e)[:160]}")
 
 
+def norm(c):
+    """cases carry `axes` (symmetric axes, ascending) and `ms` (half sizes); single-plane inputs may say axis / m"""
+    if "axes" not in c:
+        c = dict(c, axes=[c["axis"]], ms=[c["m"]])
+    return c
+
+
 def gen_case(rng, thorough, force=None):
     c = {}
-    c["axis"] = rng.randint(0, 2)
-    c["m"] = rng.choice([1, 2, 2, 3, 3, 4] if thorough else [1, 2, 2, 3, 3])
+    c["axes"] = [rng.randint(0, 2)]
+    c["ms"] = [rng.choice([1, 2, 2, 3, 3, 4] if thorough else [1, 2, 2, 3, 3])]
     c["far"] = rng.choice(["none", "none", "none", "pec", "pec", "pmc", "pml", "periodic"])
     c["tshape"] = [rng.randint(1, 4), rng.randint(1, 4)]
     c["tfaces"] = [list(rng.choice(PAIRS_OK)), list(rng.choice(PAIRS_OK))]
@@ -57,31 +68,70 @@ def gen_case(rng, thorough, force=None):
     c["mu_tier"] = rng.choice([0, 0, 1, 3])
     c["sig_e"] = rng.chance(0.3)
     c["sig_h"] = rng.chance(0.2)
-    c["det"] = rng.chance(0.5)
+    c["det"] = rng.choice(["", "", "vol", "vol"])
     c["seed"] = rng.np_seed()
     if force:
+        force = dict(force)
+        if "axis" in force:
+            force["axes"] = [force.pop("axis")]
+        if "m" in force:
+            force["ms"] = [force.pop("m")]
+        if force.get("det") is True:
+            force["det"] = "vol"
+        if force.get("det") is False:
+            force["det"] = ""
         c.update(force)
+    k = len(c["axes"])
+    c["tshape"], c["tfaces"] = c["tshape"][:3 - k], c["tfaces"][:3 - k]
     if c["far"] == "pml":
-        c["m"] = max(c["m"], 2)
+        c["ms"] = [max(m, 2) for m in c["ms"]]
         c["nonuniform"] = False
-    if c["m"] == 1 and c["tshape"] == [1, 1]:
-        c["tshape"] = [2, 1]          # a 1x1x1 reduced volume trips place_objects' sharding helper (unrelated to the property)
+    if all(m == 1 for m in c["ms"]) and all(n == 1 for n in c["tshape"]):
+        c["ms"][0] = 2          # a 1x1x1 reduced volume trips place_objects' sharding helper (unrelated to the property)
+    if c["det"] == "box" and (min(c["ms"]) < 2 or c["nonuniform"]):
+        c["det"] = "vol"
     return c
 
 
+def gen_multi(rng, axes, force=None):
+    """two or three electric planes at once; always with a co-located detector touching all of them"""
+    f = dict(axes=list(axes), ms=[rng.choice([2, 3]) for _ in axes], far=rng.choice(["none", "none", "pmc", "pec"]),
+             nonuniform=False, det=rng.choice(["vol", "box"]))
+    if f["far"] == "pec":
+        f["ms"] = [3 for _ in axes]      # with a far PEC layer the plane rows enter the compared region only for m >= 3
+    f.update(force or {})
+    return gen_case(rng, False, f)
+
+
+def others_of(c):
+    return [a for a in range(3) if a not in c["axes"]]
+
+
 def full_shape(c):
-    others = [a for a in range(3) if a != c["axis"]]
     s = [0, 0, 0]
-    s[c["axis"]] = 2 * c["m"] + (1 if c.get("odd") else 0)
-    s[others[0]], s[others[1]] = c["tshape"]
+    for a, m in zip(c["axes"], c["ms"]):
+        s[a] = 2 * m + (1 if c.get("odd") else 0)
+    for o, n in zip(others_of(c), c["tshape"]):
+        s[o] = n
     return s
 
 
+def red_shape(c):
+    s = full_shape(c)
+    for a, m in zip(c["axes"], c["ms"]):
+        s[a] = m
+    return s
+
+
+def sym_of(c):
+    return tuple(-1 if a in c["axes"] else 0 for a in range(3))
+
+
 def faces_of(c):
-    others = [a for a in range(3) if a != c["axis"]]
     f = {}
-    f[Y.FACES[2 * c["axis"]]] = f[Y.FACES[2 * c["axis"] + 1]] = c["far"]
-    for o, pr in zip(others, c["tfaces"]):
+    for a in c["axes"]:
+        f[Y.FACES[2 * a]] = f[Y.FACES[2 * a + 1]] = c["far"]
+    for o, pr in zip(others_of(c), c["tfaces"]):
         f[Y.FACES[2 * o]], f[Y.FACES[2 * o + 1]] = pr
     return f
 
@@ -91,13 +141,25 @@ def widths_of(c):
         return None
     r = np.random.default_rng(c["seed"] + 17)
     w = []
+    ms = dict(zip(c["axes"], c["ms"]))
     for a, n in enumerate(full_shape(c)):
-        if a == c["axis"]:
-            half = 50e-9 * r.uniform(0.6, 1.6, c["m"])
+        if a in ms:
+            half = 50e-9 * r.uniform(0.6, 1.6, ms[a])
             w.append(list(np.concatenate([half[::-1], half])))
         else:
             w.append(list(50e-9 * r.uniform(0.6, 1.6, n)))
     return w
+
+
+def det_region(c):
+    """full-domain cell range of the detector per axis: the whole volume, or a box of 4 cells centred on every plane
+    (it straddles all planes: meeting line and corner cell included) spanning the other axes"""
+    fs = full_shape(c)
+    reg = [(0, n) for n in fs]
+    if c["det"] == "box":
+        for a, m in zip(c["axes"], c["ms"]):
+            reg[a] = (m - 2, m + 2)
+    return reg
 
 
 def detector_fn(c):
@@ -107,42 +169,39 @@ def detector_fn(c):
     jnp = Y.J()["jnp"]
 
     def fn(vol):
-        d = f.FieldDetector(name="det", exact_interpolation=True, reduce_volume=False, dtype=jnp.float64, plot=False)
-        return [d], list(d.same_position_and_size(vol))
+        if c["det"] == "vol":
+            d = f.FieldDetector(name="det", exact_interpolation=True, reduce_volume=False, dtype=jnp.float64, plot=False)
+            return [d], list(d.same_position_and_size(vol))
+        shape = [4 if a in c["axes"] else None for a in range(3)]
+        d = f.FieldDetector(name="det", exact_interpolation=True, reduce_volume=False, dtype=jnp.float64, plot=False,
+                            partial_grid_shape=tuple(shape))
+        return [d], [d.place_at_center(vol, axes=tuple(c["axes"]))]
     return fn
 
 
 def scenes(c):
-    sym = [0, 0, 0]
-    sym[c["axis"]] = -1
     kw = dict(widths=widths_of(c), pml_thickness=1, time=2.5e-15, extra_fn=detector_fn(c))
     full = Y.build(full_shape(c), faces_of(c), **kw)
-    red = Y.build(full_shape(c), faces_of(c), symmetry=sym, **kw)
+    red = Y.build(full_shape(c), faces_of(c), symmetry=sym_of(c), **kw)
     red.shape = tuple(red.objects.volume.grid_shape)
-    return full, red, tuple(sym)
+    return full, red, sym_of(c)
 
 
 def materialise(c):
-    """random reduced state with the PEC-mirror parity, transversally varying materials; returns reduced and full arrays"""
-    j = Y.J()
-    fdtdx, jnp = j["fdtdx"], j["jnp"]
-    a, m = c["axis"], c["m"]
-    fs = full_shape(c)
-    rs = list(fs)
-    rs[a] = m
+    """random reduced state with the PEC-mirror parity on every plane, materials varying only along the non-symmetric
+    axes; returns reduced and full arrays"""
+    fs, rs = full_shape(c), red_shape(c)
     r = np.random.default_rng(c["seed"])
     Er, Hr = r.standard_normal([3] + rs), r.standard_normal([3] + rs)
-    plane = [slice(None)] * 3
-    plane[a] = 0
-    for comp in range(3):
-        if comp != a:
-            Er[(comp,) + tuple(plane)] = 0.0        # tangential E: odd, sampled on the plane
-    Hr[(a,) + tuple(plane)] = 0.0                   # normal H: odd, sampled on the plane
-    sym = [0, 0, 0]
-    sym[a] = -1
-    Ef, Hf = unfold(Er, sym, "E"), unfold(Hr, sym, "H")
-    ts = list(fs)
-    ts[a] = 1
+    for a in c["axes"]:
+        plane = [slice(None)] * 3
+        plane[a] = 0
+        for comp in range(3):
+            if comp != a:
+                Er[(comp,) + tuple(plane)] = 0.0        # tangential E: odd, sampled on the plane
+        Hr[(a,) + tuple(plane)] = 0.0                   # normal H: odd, sampled on the plane
+    Ef, Hf = unfold(Er, sym_of(c), "E"), unfold(Hr, sym_of(c), "H")
+    ts = [1 if a in c["axes"] else n for a, n in enumerate(fs)]
 
     def mat(tier, lo, hi):
         v = r.uniform(lo, hi, [tier] + ts)
@@ -165,19 +224,18 @@ def boundary_signature(objects):
 def expected_signature(c):
     names = {"pec": "PerfectElectricConductor", "pmc": "PerfectMagneticConductor", "periodic": "BlochBoundary",
              "pml": "PerfectlyMatchedLayer"}
-    fs = full_shape(c)
-    rs = list(fs)
-    rs[c["axis"]] = c["m"]
+    rs = red_shape(c)
     out = []
     f = faces_of(c)
     for ax in range(3):
         for side, d in ((0, "-"), (1, "+")):
             kind = f[Y.FACES[2 * ax + side]]
-            if kind == "none" or (ax == c["axis"] and d == "-"):
-                continue                              # the min-side object of the symmetric axis lies in the discarded half
+            if kind == "none" or (ax in c["axes"] and d == "-"):
+                continue                              # the min-side object of a symmetric axis lies in the discarded half
             n = rs[ax]
             out.append((names[kind], ax, d, 0 if d == "-" else n - 1, 1 if d == "-" else n, False))
-    out.append(("PerfectElectricConductor", c["axis"], "-", 0, 1, True))
+    for a in c["axes"]:
+        out.append(("PerfectElectricConductor", a, "-", 0, 1, True))
     return sorted(out)
 
 
@@ -190,10 +248,11 @@ def run_both(c, nsteps):
     ar = Y.with_state(red, R[0], R[1], R[2], R[3], R[4], R[5])
     af = Y.with_state(full, F[0], F[1], F[2], F[3], F[4], F[5])
     jax = j["jax"]
+    rec = bool(c["det"])
 
     def stepper(sc):      # the public time step, jit-compiled once per container (eager dispatch is 5x slower on fresh shapes)
         return jax.jit(lambda a, t: j["forward"]((t, a), sc.config, sc.objects, key=jax.random.PRNGKey(0),
-                                                 record_detectors=c["det"], record_boundaries=False, simulate_boundaries=True)[1])
+                                                 record_detectors=rec, record_boundaries=False, simulate_boundaries=True)[1])
     fr, ff = stepper(red), stepper(full)
     hist = []
     for n in range(1, nsteps + 1):
@@ -201,7 +260,7 @@ def run_both(c, nsteps):
         ar, af = fr(ar, t), ff(af, t)
         hist.append((np.asarray(ar.fields.E), np.asarray(ar.fields.H), np.asarray(af.fields.E), np.asarray(af.fields.H)))
     det = None
-    if c["det"]:
+    if rec:
         try:
             un = j["fdtdx"].unfold_detector_states(ar, red.objects, red.config)
         except Exception as e:
@@ -211,53 +270,79 @@ def run_both(c, nsteps):
 
 
 def nsteps_of(c):
-    return c["m"] + (4 if c["far"] == "pmc" else 2)
+    if len(c["axes"]) > 1:
+        return min(c["ms"]) + 1
+    return c["ms"][0] + (4 if c["far"] == "pmc" else 2)
+
+
+def cone_mask(c, shape3, n, extra, start=(0, 0, 0), skip_first=()):
+    """boolean mask over an array of spatial shape `shape3` whose cell (0,0,0) is full-domain cell `start`: True where
+    every symmetric axis index c_a satisfies c_a >= n + d + extra(a), i.e. outside the reach of the far faces"""
+    d = DELTA[c["far"]]
+    mask = np.ones(shape3, dtype=bool)
+    for a in c["axes"]:
+        idx = np.arange(shape3[a]) + start[a]
+        ok = idx >= n + d + extra(a)
+        if a in skip_first:
+            ok[0] = False
+        sh = [1, 1, 1]
+        sh[a] = shape3[a]
+        mask = mask & ok.reshape(sh)
+    return mask
+
+
+def first_bad(diff, mask):
+    """first masked cell where diff exceeds TOL (diff: (comp, x, y, z))"""
+    bad = (~(diff <= TOL)) & mask[None]
+    if not bad.any():
+        return None
+    w = np.argwhere(bad)[0]
+    return tuple(int(x) for x in w), float(diff[tuple(w)])
 
 
 def oracle(c, sym, hist, det):
     """the property on the implementation; returns (detail or None, info)"""
-    j = Y.J()
-    fdtdx, jnp = j["fdtdx"], j["jnp"]
-    a, m = c["axis"], c["m"]
-    d = DELTA[c["far"]]
-    other = tuple(x for x in range(4) if x != a + 1)
+    fs = full_shape(c)
     info = {"diverged_outside_cone": False, "compared_cells": 0}
+    up = (slice(None),) + tuple(slice(fs[a] // 2, None) if a in c["axes"] else slice(None) for a in range(3))
+    where = f"axes={c['axes']}, ms={c['ms']}, far={c['far']}"
     for n, (Er, Hr, Ef, Hf) in enumerate(hist, start=1):
+        mask = cone_mask(c, fs, n, lambda a: 0)
         for nm, red, ful in (("E", Er, Ef), ("H", Hr, Hf)):
-            un = unfold(red, sym, nm)
-            diff = np.max(np.abs(un - ful), axis=other)          # per full cell index along the axis
-            lo = n + d
-            info["compared_cells"] += max(0, 2 * m - lo)
-            if np.any(diff[:lo] > TOL):
+            diff = np.abs(unfold(red, sym, nm) - ful)
+            info["compared_cells"] += int(mask.sum())
+            if np.any((diff > TOL) & ~mask[None]):
                 info["diverged_outside_cone"] = True
-            bad = np.where(~(diff[lo:] <= TOL))[0]
-            if bad.size:
-                cidx = int(bad[0]) + lo
-                return (f"{nm} after step {n}: unfold(reduced) differs from the full run by {diff[cidx]:.3e} at cell {cidx} "
-                        f"of the symmetry axis {a} (m={m}, far={c['far']}: cells >= {lo} are outside the reach of the far face)"), info
-            up = [slice(None)] * 4
-            up[a + 1] = slice(m, None)
-            dd = np.max(np.abs(ful[tuple(up)] - red), axis=other)
-            bad = np.where(~(dd[max(0, lo - m):] <= TOL))[0]
-            if bad.size:
-                return f"{nm} after step {n}: reduced run differs from the upper half of the full run by {dd.max():.3e}", info
+            b = first_bad(diff, mask)
+            if b:
+                return (f"{nm} after step {n}: unfold(reduced) differs from the full run by {b[1]:.3e} at (component, cell) {b[0]} "
+                        f"({where}: this cell is outside the reach of the far faces of the discarded parts)"), info
+            b = first_bad(np.abs(ful[up] - red), mask[up[1:]])
+            if b:
+                return f"{nm} after step {n}: reduced run differs from the kept part of the full run by {b[1]:.3e} at {b[0]} ({where})", info
     if det is not None:
         ur, uf = det
         if ur.shape != uf.shape:
-            return f"unfolded detector record has shape {ur.shape}, the full-domain one {uf.shape}", info
+            return f"unfolded detector record has shape {ur.shape}, the full-domain one {uf.shape} ({where})", info
+        reg = det_region(c)
+        start = tuple(r[0] for r in reg)
+        # the co-location stencil reads one cell back along x, y and forward along z; the outermost cell of an unfolded box
+        # that does not span the axis is a filler (its mirror partner lies outside the reduced detector) on x, y
+        skip = tuple(a for a in c["axes"] if a in (0, 1) and reg[a][0] > 0)
         for n in range(1, len(hist) + 1):
-            diff = np.max(np.abs(ur[n - 1] - uf[n - 1]), axis=tuple(x for x in range(4) if x != a + 1))
-            lo = n + d + (0 if a == 2 else 1)     # co-location reads one cell back along x, y; forward along z
-            bad = np.where(~(diff[lo:] <= TOL))[0]
-            info["compared_cells"] += max(0, 2 * m - lo)
-            if bad.size:
-                cidx = int(bad[0]) + lo
+            mask = cone_mask(c, ur.shape[2:], n, lambda a: 0 if a == 2 else 1, start=start, skip_first=skip)
+            info["compared_cells"] += int(mask.sum())
+            b = first_bad(np.abs(ur[n - 1] - uf[n - 1]), mask)
+            if b:
+                comp = ["Ex", "Ey", "Ez", "Hx", "Hy", "Hz"][b[0][0]]
+                cell = tuple(x + s0 for x, s0 in zip(b[0][1:], start))
                 return (f"detector row of step {n}: unfold_detector_states(reduced) differs from the full-domain record by "
-                        f"{diff[cidx]:.3e} at cell {cidx} of axis {a} (m={m}, far={c['far']})"), info
+                        f"{b[1]:.3e} in {comp} at full cell {cell} ({where}, detector {c['det']})"), info
     return None, info
 
 
 def property_fails(c):
+    c = norm(c)
     if c.get("odd"):
         return None
     if c["far"] == "periodic":
@@ -272,10 +357,11 @@ def property_fails(c):
 def red_request(full, c, F, nsteps):
     line = Y.request(full, "fwd", F[0], F[1], F[2], 1.0 if F[3] is None else F[3], F[4], F[5], None, nsteps)
     assert line.startswith("fwd r ")
-    return f"redfwd {c['axis']} r " + line[len("fwd r "):]
+    return f"redfwd {''.join(str(a) for a in c['axes'])} r " + line[len("fwd r "):]
 
 
 def one_case(ctx, c, sample=False):
+    c = norm(c)
     nsteps = nsteps_of(c)
     try:
         full, red, sym, R, F, hist, det = run_both(c, nsteps)
@@ -284,13 +370,13 @@ def one_case(ctx, c, sample=False):
         ctx.impl_property_evals += 1
         ctx.violation(c, str(e))
         return
-    key = (c["axis"], c["m"], c["far"], str(c["tfaces"]), c["eps_tier"], c["mu_tier"], c["sig_e"], c["sig_h"], c["seed"])
-    ctx.case(sample=c if sample else None, nontrivial=key, axis=c["axis"], m=c["m"], far=c["far"],
-             grid="nonuniform" if c["nonuniform"] else "uniform", det=c["det"], sig_e=c["sig_e"], sig_h=c["sig_h"],
-             eps_tier=c["eps_tier"], mu_tier=c["mu_tier"], tshape=str(c["tshape"]),
+    key = (str(c["axes"]), str(c["ms"]), c["far"], str(c["tfaces"]), c["eps_tier"], c["mu_tier"], c["sig_e"], c["sig_h"], c["seed"])
+    ctx.case(sample=c if sample else None, nontrivial=key, axes="".join(map(str, c["axes"])), m=str(c["ms"]), far=c["far"],
+             planes=len(c["axes"]), grid="nonuniform" if c["nonuniform"] else "uniform", det=c["det"] or "none",
+             sig_e=c["sig_e"], sig_h=c["sig_h"], eps_tier=c["eps_tier"], mu_tier=c["mu_tier"], tshape=str(c["tshape"]),
              tfaces=",".join("/".join(p) for p in c["tfaces"]))
     ctx.expect_equal("boundary objects of the reduced container", c, boundary_signature(red.objects), expected_signature(c))
-    ctx.expect_equal("reduced volume shape", c, list(red.shape), [c["m"] if a == c["axis"] else n for a, n in enumerate(full_shape(c))])
+    ctx.expect_equal("reduced volume shape", c, list(red.shape), red_shape(c))
     if c["far"] != "pml":
         fs, rs = full_shape(c), list(red.shape)
         imu = 1.0 if F[3] is None else F[3]
@@ -313,11 +399,9 @@ def one_case(ctx, c, sample=False):
 
 def odd_case(ctx, c):
     """odd cell count along the symmetric axis: both sides refuse"""
-    c = dict(c, odd=True, far="none", det=False, nonuniform=False)
-    sym = [0, 0, 0]
-    sym[c["axis"]] = -1
+    c = dict(norm(c), odd=True, far="none", det="", nonuniform=False)
     try:
-        Y.build(full_shape(c), faces_of(c), symmetry=sym)
+        Y.build(full_shape(c), faces_of(c), symmetry=sym_of(c))
         impl = "ok"
     except Exception:
         impl = "error"
@@ -325,7 +409,7 @@ def odd_case(ctx, c):
     fs = full_shape(c)
     z = np.zeros([3] + fs)
     rep = ctx.driver.ask(red_request(full, c, (z, z, np.ones([1] + fs), None, None, None), 1))
-    ctx.case(nontrivial=("odd", c["axis"], c["m"]), odd=True)
+    ctx.case(nontrivial=("odd", str(c["axes"]), str(c["ms"])), odd=True)
     ctx.expect_equal("odd cell count on the symmetric axis", c, impl, rep)
 
 
@@ -337,22 +421,47 @@ FORCED = [
     dict(axis=0, m=2, far="periodic", tshape=[2, 2], tfaces=[["none", "none"], ["pmc", "pmc"]], det=False),
     dict(axis=1, m=3, far="pml", tshape=[2, 2], tfaces=[["periodic", "periodic"], ["none", "none"]], det=False),
 ]
+# several electric planes at once: every pair of axes and the triple, each with a co-located detector that touches all planes
+# (whole volume, or a 4-cell box around the meeting line / corner); quick runs all of them on every seed
+MULTI = [
+    dict(axes=[0, 1], ms=[2, 2], far="none", det="vol", tshape=[2], tfaces=[["periodic", "periodic"]]),
+    dict(axes=[0, 2], ms=[3, 2], far="pmc", det="box", tshape=[2], tfaces=[["none", "none"]]),
+    dict(axes=[1, 2], ms=[2, 3], far="none", det="vol", tshape=[1], tfaces=[["pec", "pec"]], eps_tier=3),
+    dict(axes=[0, 1, 2], ms=[2, 2, 2], far="none", det="vol", tshape=[], tfaces=[]),
+]
+
+
+def multi_cases(rng, thorough):
+    out = []
+    for i, f in enumerate(MULTI):
+        f = dict(f)
+        if len(f["axes"]) == 2:        # vary half sizes, far kind and detector kind over the seeds; the axes pairs stay fixed
+            f["ms"] = [rng.choice([2, 3]), rng.choice([2, 3])]
+            f["far"] = rng.choice(["none", "none", "pmc"])
+            f["det"] = rng.choice(["vol", "box"])
+        out.append(gen_case(rng, False, f))
+    if thorough:
+        for i in range(12):
+            axes = [[0, 1], [0, 2], [1, 2], [0, 1, 2]][i % 4]
+            out.append(gen_multi(rng, axes, dict(tshape=[rng.randint(1, 3)], tfaces=[list(rng.choice(PAIRS_OK))])))
+    return out
 
 
 def run(ctx):
-    n = ctx.scale(10, 80)
+    n = ctx.scale(7, 80)
     cases = [gen_case(ctx.rng, ctx.thorough, f) for f in FORCED]
     while len(cases) < n:
         cases.append(gen_case(ctx.rng, ctx.thorough))
+    cases = multi_cases(ctx.rng, ctx.thorough) + cases
     for i, c in enumerate(cases):
-        one_case(ctx, c, sample=i in (0, 1))
+        one_case(ctx, c, sample=i in (0, 4))
     for i in range(ctx.scale(2, 6)):
         odd_case(ctx, gen_case(ctx.rng, False, dict(axis=i % 3)))
 
 
 def search(ctx, hints):
     for h in hints:
-        if isinstance(h, dict) and "axis" in h and not h.get("odd"):
+        if isinstance(h, dict) and ("axis" in h or "axes" in h) and not h.get("odd"):
             ctx.impl_property_evals += 1
             d = property_fails(h)
             if d:
@@ -360,10 +469,13 @@ def search(ctx, hints):
                 return
     rng = ctx.rng.fork()
     for i in range(ctx.scale(40, 300)):
-        c = gen_case(rng, False, dict(axis=i % 3, det=(i % 2 == 0)))
-        if i < 12:      # smallest first
-            c.update(m=1 + i % 2, tshape=[1 + (i // 6), 2], nonuniform=False, sig_e=False, sig_h=False, mu_tier=0, eps_tier=1,
-                     far=["none", "pec", "pmc"][(i // 3) % 3])
+        if i % 4 == 3:
+            c = gen_multi(rng, [[0, 1], [0, 2], [1, 2], [0, 1, 2]][(i // 4) % 4])
+        else:
+            c = gen_case(rng, False, dict(axis=i % 3, det=(i % 2 == 0)))
+            if i < 12:      # smallest first
+                c.update(ms=[1 + i % 2], tshape=[1 + (i // 6), 2], nonuniform=False, sig_e=False, sig_h=False, mu_tier=0, eps_tier=1,
+                         far=["none", "pec", "pmc"][(i // 3) % 3])
         if c["far"] == "periodic":
             c["far"] = "none"
         ctx.impl_property_evals += 1
